@@ -251,7 +251,7 @@ def cases(tier, rng):
             if n - k <= (5 if q else 7): yield 'perms.permutk %s %d' % (il(l), k), 'perms.permutk-distinct'
         yield from comb_lines(l)
     # longer lists over {0,1,2} and wider alphabets, negative ints
-    for _ in range(20 if q else 200):
+    for _ in range(20 if q else 300):
         n = rng.choice([6, 7]); l = [rng.randrange(0, 3) for _ in range(n)]
         for k in range(max(0, n - (5 if q else 6)), n + 1): yield 'perms.permutk %s %d' % (il(l), k), 'perms.permutk-long'
         yield from comb_lines(l)
@@ -267,7 +267,7 @@ def cases(tier, rng):
             yield 'perms.combink %s %d %d' % (il(l), p, k), 'perms.combink-outside'
     # ---- subset sums: item lists up to 6 with positive weights, every target 0..sum+1
     for n in range(0, 7):
-        for _ in range((6 if q else 60) if n else 1):
+        for _ in range((6 if q else 200) if n else 1):
             yield from ks_lines(ritems(rng, n, wmax=rng.choice([3, 6, 9])))
         for _ in range(2 if q else 20):
             yield from ks_lines(ritems(rng, n, wmax=4, distinct=False))
@@ -277,7 +277,7 @@ def cases(tier, rng):
         for line, tag in ks_lines(items, range(-1, 7)): yield line, tag + '-nonpos'
     yield from ks_lines([(1, 2), (2, 3)], [-1, -5])
     # ---- histories
-    yield from seq_lines(rng, 40 if q else 400)
+    yield from seq_lines(rng, 40 if q else 2000)
     yield 'c20.seq perms.combink.partial l1 1 0 1 | perms.combink l1,2,3,4,5 3 0', 'seq.combink-abandoned'
     yield 'c20.seq ks.exactsum l1,2,3,4 l3,5,2,7 8 | ks.exactsum l1,2,3,4 l3,5,2,7 8', 'seq.ks.exactsum-twice'
 
